@@ -78,8 +78,6 @@ def _raise_rpc(log: Log, code: Any, message: Any, data: Any) -> None:
 
 def _raise_exc(kind: str, marker: str) -> None:
     cls = BUILTIN_EXC[kind]
-    if cls is KeyError:
-        raise KeyError(marker)
     raise cls(f'Zq7_marker_{marker}')
 
 
@@ -123,8 +121,22 @@ def make_methods(log: Log, is_async: bool) -> Dict[str, Callable[..., Any]]:
         log.contexts.append(ctx)
         return [getattr(ctx, 'token', None), a]
 
+    def factory(n):
+        # two handlers with the same __module__ / __qualname__ but different signatures (closure factories are common)
+        if n == 1:
+            def handler(x):
+                log.calls.append(('fac1', (x,), {}))
+                return ['fac1', x]
+        else:
+            def handler(x, y=5, *, z=None):
+                log.calls.append(('fac2', (x, y), {'z': z}))
+                return ['fac2', x, y, z]
+        return handler
+
+    fac = dict(fac1=factory(1), fac2=factory(2))
+
     if not is_async:
-        return dict(ok=ok, noargs=noargs, echo=echo, kwonly=kwonly, rpcerr=rpcerr, typed=typed, boom=boom, ctxm=ctxm)
+        return dict(fac, ok=ok, noargs=noargs, echo=echo, kwonly=kwonly, rpcerr=rpcerr, typed=typed, boom=boom, ctxm=ctxm)
 
     async def a_ok(a, b=0):
         return ok(a, b)
@@ -142,7 +154,7 @@ def make_methods(log: Log, is_async: bool) -> Dict[str, Callable[..., Any]]:
         return ctxm(ctx, a)
 
     # mixture: coroutines and plain functions side by side
-    return dict(ok=a_ok, noargs=noargs, echo=a_echo, kwonly=kwonly, rpcerr=a_rpcerr, typed=typed, boom=a_boom,
+    return dict(fac, ok=a_ok, noargs=noargs, echo=a_echo, kwonly=kwonly, rpcerr=a_rpcerr, typed=typed, boom=a_boom,
                 ctxm=a_ctxm)
 
 
@@ -170,7 +182,7 @@ def make_view(log: Log, is_async: bool):
     return ProbeView
 
 
-METHOD_NAMES = ('ok', 'noargs', 'echo', 'kwonly', 'rpcerr', 'typed', 'boom', 'ctxm', 'view.vm')
+METHOD_NAMES = ('fac1', 'fac2', 'ok', 'noargs', 'echo', 'kwonly', 'rpcerr', 'typed', 'boom', 'ctxm', 'view.vm')
 
 
 class World:
